@@ -104,6 +104,9 @@ class PreparedStatementPlanner():
                 ds=ds,
             ))
 
+        if stmt.params is None:
+            raise PlanningException('Statement is already executed')
+
         parameters = []
         for param in stmt.params:
             name = '?'
@@ -504,6 +507,9 @@ class PreparedStatementPlanner():
         query = self.planner.query
 
         if params is not None:
+
+            if stmt.params is None:
+                raise PlanningException("Statement is already executed")
 
             if len(params) != len(stmt.params):
                 raise PlanningException("Count of execution parameters don't match prepared statement")
